@@ -97,6 +97,44 @@ CHECKS = {
              "premises (codec_ok), Boost.Serialization 1.83 as installed; elements() order is C02's; hand-written Gallina model tied "
              "to /repo by a sampled correspondence check whose generator distribution is in the evidence; Cereal, 0-D views and "
              "views of re-based arrays not exercised; no 64-bit overflow"),
+    "C15": dict(
+        text="Coq, all ranks/masks/sizes/strides (induction over the mask): C15_plan_denotes_view_dft - the dims/howmany_dims handed "
+             "to fftw_plan_guru64_dft visit exactly the index set of the views, split by the mask, each index once, at the views' "
+             "own addresses; C15_output_frame - written locations = output view, read locations = input view; C15_call_shape - one "
+             "plan (view bases, requested sign, FFTW_ESTIMATE|FFTW_PRESERVE_INPUT), one execute on the same pointers, one destroy. "
+             "Relative to an explicit FFTW contract (premise guru_contract, shown satisfiable): C15_equals_direct_dft - output view "
+             "= direct unnormalised DFT along exactly the masked dimensions with the requested sign, batches independent, nothing "
+             "outside the output view modified, out-of-place and in-place; C15_input_unchanged; C15_forward_backward (premise: 1-D "
+             "DFT inversion at the transformed sizes); C15_lazy_range (the lazy fft::dft range form equals dft()). Explicit plan "
+             "objects over an empty transformed dimension stay outside (asserted precondition; C15_plan_object_needs_nonempty_"
+             "transform). Tie: every generated case (all 2^D masks per layout pair, D 1..4, padded/strided/rotated/transposed/"
+             "reversed/shared-root/in-place layouts, 7 front ends) compares the interposed fftw_plan_guru64_dft/execute/destroy "
+             "arguments, view shapes and changed output cells with the extracted model, and checks the result against an O(N^2) "
+             "long-double DFT, input copy, frame, guard cells and forward-backward.",
+        design_ref="5/C15", technique="Coq proof (permutation of nested-loop index sets by induction over the mask; refinement of the "
+                                      "plan to the view index map; ring-generic DFT algebra) + extracted-model vs library differential "
+                                      "with FFTW symbol interposition and an independent O(N^2) DFT monitor",
+        note="Coq 8.16.1 kernel; property theorems print 'Closed under the global context'; the DFT itself is FFTW's: guru_contract "
+             "(trusted reading of the FFTW manual, incl. PRESERVE_INPUT and in-place is==os) and tw_orthogonal_at are premises, "
+             "sampled by the O(N^2) monitor, not proved; zero-based views (index bases: C19); no 64-bit overflow; FFTW 3.3.10 / g++ 12"),
+    "C18": dict(
+        text="Theorems C18_message_is_elements, C18_reachable_view, C18_transfer, C18_transfer_reachable, C18_types_freed_once, "
+             "C18_create_subarray, C18_data(+_strided_refuted/_partial) (Coq, all ranks >= 1, all sizes incl. 0 and 1, all strides, "
+             "all element sizes, all C01 operation sequences): the (count, datatype) that mpi.hpp's skeleton/message builds from a "
+             "zero-based view's layout denotes, relative to base(), exactly the byte displacements of the view's elements in "
+             "canonical order (each valid tuple once; equal to elements()[k]); for reachable views every entry lies inside the "
+             "root and entries never overlap; pack through one view's message and unpack through any equal-count view's message "
+             "moves the k-th element to the k-th element and changes nothing else; every created datatype handle is fresh, "
+             "committed before communication, freed exactly once. MPI-3.1 4.1/4.2 type-map, extent, message and pack/unpack "
+             "semantics are Coq definitions. Tie: singleton MPI_Init, decoded datatype tree, count, extents, MPI_Pack vs "
+             "elements(), guarded MPI_Unpack through the other view's message, PMPI create/commit/use/free trace.",
+        design_ref="5/C18", technique="Coq proof (induction on the dimension list for the type map and the handle ledger; injectivity "
+                                      "of the documented index maps) + extracted-model vs library differential under singleton MPI "
+                                      "with a PMPI logging layer, MPI_Pack/MPI_Unpack, MPI_Type_get_envelope/contents decoding",
+        note="Coq 8.16.1 kernel; all Print Assumptions: Closed under the global context; MPI semantics are definitions (trusted "
+             "reading of MPI-3.1, cross-checked against Open MPI 4.1.4 on every run); MPI_Send/MPI_Recv between two processes are "
+             "not run (MPI_Pack/MPI_Unpack on the same messages are); zero-based views only (C19 owns index bases); no int/MPI_Aint "
+             "overflow; mpi::data(iterator) ignores the stride (recorded observation, outside the statement; the suite expects it)"),
 }
 
 NOT_YET = {
